@@ -1,7 +1,7 @@
 """Source of truth for MANIFEST.json (run tools/mkmanifest.py after editing)."""
 
 ENGINES = [
-    dict(name="enumx", path="/verif/vlib/runner.py", serves_properties=["C03","C04","C10","C11","C15","C17"],
+    dict(name="enumx", path="/verif/vlib/runner.py", serves_properties=["C03","C04","C10","C11","C14","C15","C17"],
          kind_free_text="bounded-exhaustive enumeration of an explicit finite case space over the real implementation, 16-way fan-out, reference model oracle"),
 ]
 
@@ -18,6 +18,10 @@ CHECKS = [
          technique="bounded-exhaustive enumeration of persisted products (HDF5, YAML, text, metadata, cache) with write/read-back comparison",
          text="Every product of the stated parameter/content alphabets is written and re-read with the real I/O code and compared field by field (own snapshot comparison, the library's ==, downstream sample()).",
          note="Text precision bound derived from the fixed-width format (truncation to the kept decimals). Catalog cache round trips are covered in depth by C02."),
+    dict(id="C14", engine="enumx", level="exploration", design_ref="DESIGN.md §5 C14",
+         technique="bounded-exhaustive enumeration of special-value and lattice coordinates (all ordered pairs, antipodes) against a long-double Vincenty reference",
+         text="All ordered pairs of 221 special-value points, an 8192-point generic lattice with exact and near antipodes, direct unit-vector inputs with signed zeros, a distance alphabet and all point sets of size 1-3 are evaluated and compared with exact spherical geometry within conditioning-derived bounds.",
+         note="Bounds come from the conditioning of theta=2asin(c/2): min(1e-7, 1e-15(1+2/(pi-theta))). VERIF_SEED only moves the low digits of the lattice."),
     dict(id="C15", engine="enumx", level="exploration", design_ref="DESIGN.md §5 C15",
          technique="bounded-exhaustive enumeration of configuration parameters and of all single/pair modifications against independent references (bisection on astropy distances, r/D(z))",
          text="The full create() parameter product, an invalid-parameter alphabet and every single and pairwise modification of 8 base configurations are compared with reference edges/angles and with create(**merged).",
